@@ -14,13 +14,25 @@ def mod_file(mod: str) -> str:
     return mod.replace(".", "/") + ("/__init__.py" if mod in PACKAGES else ".py")
 
 
+def gen_base(rng: random.Random) -> str:
+    """A base-class (or decorator) expression: a name of the module's scope - possibly an import, i.e. an alias that may be
+    unresolvable or cyclic -, the class ``K`` that holds imports in its body, or a dotted path through a module name."""
+    r = rng.random()
+    if r < 0.5:
+        return rng.choice(NAMES)
+    if r < 0.7:
+        return "K"
+    return f"{rng.choice(['a', 'b', 's', 'c', 'd', 'p', 'q', 'p.a', 'q.d', *NAMES])}.{rng.choice([*NAMES, 'K'])}"
+
+
 def gen_statement(rng: random.Random, mod: str, hostile: bool) -> tuple[str, dict]:
     """One top-level statement and a descriptor used by the non-triviality / classifier logic."""
     r = rng.random()
     name = rng.choice(NAMES)
     if r < 0.25:
-        form = rng.choice(["def {n}(): ...", "class {n}: ...", "{n} = 1", "{n}: int = 2"])
-        return form.format(n=name), {"t": "def", "name": name}
+        form = rng.choice(["def {n}(): ...", "class {n}: ...", "{n} = 1", "{n}: int = 2", "class {n}({b}): ...",
+                           "class {n}({b}):\n    m_{n} = 1\n    def f_{n}(self): ...", "@{b}\ndef {n}(): ..."])
+        return form.format(n=name, b=gen_base(rng)), {"t": "def", "name": name}
     targets = MODULES + (MISSING_MODULES if hostile else [])
     if hostile and rng.random() < 0.18:
         # a dotted path that goes *through a name* bound in a package (possibly an alias of a module, possibly of the very
@@ -113,21 +125,68 @@ def gen_graph(rng: random.Random, hostile: bool = True) -> tuple[dict[str, str],
             s, d = gen_statement(rng, mod, hostile)
             lines.append(s)
             ds.append(d)
-        if rng.random() < 0.15:
-            s, d = gen_statement(rng, mod, hostile)
-            if d["t"] in ("from", "import", "wild"):
-                lines.append("class K:\n    " + s)
-                ds.append({"t": "class-import", "inner": d})
+        if rng.random() < 0.22:
+            # a class holding imports in its body (aliases nested in a class), sometimes with bases: classes that name it as
+            # a base (gen_base) inherit those aliases
+            body, inner = [], []
+            for _ in range(rng.choice([1, 1, 2])):
+                s, d = gen_statement(rng, mod, hostile)
+                if d["t"] in ("from", "import", "wild"):
+                    body.append(s)
+                    inner.append(d)
+            if body:
+                head = f"class K({gen_base(rng)}):" if rng.random() < 0.4 else "class K:"
+                lines.append(head + "".join("\n    " + s for s in body))
+                ds.extend({"t": "class-import", "inner": d} for d in inner)
         files[mod_file(mod)] = "\n".join(lines) + "\n"
         descs[mod] = ds
+    if rng.random() < 0.3:
+        add_hierarchy(rng, files, descs, hostile)
     return files, descs
 
 
-def absolute(mod: str, d: dict) -> str | None:
+def add_hierarchy(rng: random.Random, files: dict[str, str], descs: dict[str, list[dict]], hostile: bool) -> None:
+    """A base class holding plain members and imports in its body, and - in another module - a class deriving from it through
+    an import (an alias, possibly renamed, possibly travelling through a third module): the derived class inherits aliases."""
+    home, user = rng.sample(MODULES, 2)
+    body, inner = ["attr = 1", "def meth(self): ..."], []
+    for _ in range(rng.randint(1, 2)):
+        s, d = gen_statement(rng, home, hostile)
+        if d["t"] in ("from", "import", "wild"):
+            body.append(s)
+            inner.append(d)
+    rng.shuffle(body)
+    files[mod_file(home)] += "class Base:" + "".join("\n    " + s for s in body) + "\n"
+    descs[home] += [{"t": "def", "name": "Base"}, *({"t": "class-import", "inner": d} for d in inner)]
+    via = home
+    if rng.random() < 0.3:   # re-exported by a third module first
+        via = rng.choice([m for m in MODULES if m not in (home, user)])
+        files[mod_file(via)] += f"from {home} import Base\n"
+        descs[via].append({"t": "from", "module": home, "name": "Base"})
+    local = rng.choice(["Base", "Base", "Root"])
+    files[mod_file(user)] += f"from {via} import Base" + (f" as {local}" if local != "Base" else "") + "\n"
+    descs[user].append({"t": "from", "module": via, "name": "Base", **({"as": local} if local != "Base" else {})})
+    extra = rng.choice(["", "", f", {rng.choice(NAMES)}"])
+    derived = [f"class Derived({local}{extra}):", "    own = 2"]
+    if rng.random() < 0.4:
+        s, d = gen_statement(rng, user, hostile)
+        if d["t"] in ("from", "import", "wild"):
+            derived.append("    " + s)
+            descs[user].append({"t": "class-import", "inner": d})
+    files[mod_file(user)] += "\n".join(derived) + "\n"
+    descs[user].append({"t": "def", "name": "Derived"})
+    if rng.random() < 0.4:   # and somebody imports the derived class: an alias whose inherited members are views of views
+        third = rng.choice(MODULES)
+        if third != user:
+            files[mod_file(third)] += f"from {user} import Derived\n"
+            descs[third].append({"t": "from", "module": user, "name": "Derived"})
+
+
+def absolute(mod: str, d: dict, packages: set[str] | None = None) -> str | None:
     """Absolute module path a from/wildcard statement in ``mod`` refers to (None when past the top)."""
     if "rel" not in d:
         return d["module"]
-    is_pkg = mod in PACKAGES
+    is_pkg = mod in (PACKAGES if packages is None else packages)
     parts = mod.split(".")
     if not is_pkg:
         parts = parts[:-1]
@@ -217,9 +276,24 @@ def gen_ring(rng: random.Random) -> tuple[dict[str, str], dict[str, list[dict]]]
         if rng.random() < 0.5:
             files[mod_file(nxt)] = files.get(mod_file(nxt), "") + f"from {pkgname}.{alias} import {name}\n"
             descs.setdefault(nxt, []).append({"t": "from", "module": f"{pkgname}.{alias}", "name": name})
+    # spectators: modules outside the ring that import the name from a ring member and, often, rebind it right away
+    # (`from m import X` ... `X = wrap(X)`): the visitor looks at the import while it handles the assignment, i.e. it
+    # dereferences into the ring while the packages are only partly loaded
+    for mod in MODULES:
+        if mod not in ring and not files[mod_file(mod)] and rng.random() < 0.4:
+            src = rng.choice(ring)
+            local = rng.choice([name, name, rng.choice(NAMES)])
+            lines = [f"from {src} import {name}" + (f" as {local}" if local != name else "")]
+            ds = [{"t": "from", "module": src, "name": name, **({"as": local} if local != name else {})}]
+            if rng.random() < 0.6:
+                lines.append(rng.choice([f"{local} = 1", f"{local}: int = 2", f"{local} = [{local}]", f"{local} += 1",
+                                         f"class K:\n    from {src} import {name}\n    {name} = {name}"]))
+                ds.append({"t": "def", "name": local})
+            files[mod_file(mod)] = "\n".join(lines) + "\n"
+            descs[mod] = ds
     # a little noise elsewhere
     for mod in MODULES:
-        if mod not in ring and rng.random() < 0.3:
+        if mod not in ring and not files[mod_file(mod)] and rng.random() < 0.3:
             s, d = gen_statement(rng, mod, True)
             files[mod_file(mod)] = s + "\n"
             descs[mod] = [d]
@@ -497,3 +571,90 @@ def gen_extchain(rng: random.Random) -> tuple[dict[str, str], list[str]]:
                 lines.append(f"__all__ = {names!r}")
         files[f"{pk}/__init__.py"] = "\n".join(lines) + "\n"
     return files, pkgs
+
+
+def gen_extmix(rng: random.Random) -> tuple[dict[str, str], list[str], list[str]]:
+    """Import graphs over 2-4 top-level packages of which only a subset is loaded explicitly: wildcard and named imports
+    going back and forth between the packages (cross-package wildcard cycles, mixes of both forms, hops sitting in a
+    submodule), so that a package pulled in *during* expansion / resolution (external=True, or external=None for the
+    private sibling ``_pkg`` of a loaded ``pkg``) imports back from the very object that is being walked.
+    Returns (files, packages, packages to load explicitly)."""
+    pool = rng.choice([["p", "_p"], ["p", "_p", "q"], ["p", "q"], ["p", "q", "r"], ["p", "_p", "q", "_q"], ["p", "q", "r", "_r"],
+                       ["q", "_q", "p"]])
+    k = len(pool)
+    files: dict[str, str] = {}
+    edges: list[tuple[str, str]] = []
+    # a spine that closes a cycle through all packages (70%) or a chain, plus random chords
+    for i, pk in enumerate(pool):
+        if i + 1 < k or rng.random() < 0.7:
+            edges.append((pk, pool[(i + 1) % k]))
+    for _ in range(rng.randint(0, k)):
+        a, b = rng.sample(pool, 2)
+        edges.append((a, b))
+    if rng.random() < 0.5:   # the private sibling imports back from its public package (as _ast / ast do, and the reverse)
+        for pk in pool:
+            if pk.startswith("_") and pk[1:] in pool:
+                edges.append((pk, pk[1:]))
+    npre = rng.randint(1, k - 1)
+    explicit = pool[:npre] if rng.random() < 0.6 else rng.sample(pool, npre)
+    subs = {pk: rng.random() < 0.35 for pk in pool}
+    forced: dict[tuple[str, str], str] = {}
+    if rng.random() < 0.4:
+        # pincer: a package loaded up front reaches one that is not through an alias-of-a-module wildcard, and that one
+        # wildcard-imports back from the very module holding it
+        a = rng.choice(explicit)
+        b = rng.choice([x for x in pool if x not in explicit])
+        edges += [(a, b), (b, a)]
+        forced[(a, b)] = "through"
+        forced[(b, a)] = "back"
+    for pk in pool:
+        lines = []
+        own = rng.sample(NAMES, rng.randint(0, 2))
+        for n in own:
+            lines.append(rng.choice([f"def {n}(): ...", f"class {n}: ...", f"{n} = 1"]))
+        hop: list[str] = []
+        in_sub = subs[pk]
+        holder = f"{pk}.sub" if in_sub else pk
+        for a, b in edges:
+            if a != pk:
+                continue
+            if forced.get((a, b)) == "back":
+                hop.append(f"from {b}.sub import *" if subs[b] else f"from {b} import *")
+                forced[(a, b)] = "done"
+                continue
+            if forced.get((a, b)) == "through":
+                n = rng.choice(NAMES)
+                through = [f"from {holder}.{n} import *", f"import {b} as {n}"]
+                if rng.random() < 0.3:
+                    through.reverse()
+                hop.append("\n".join(through))
+                forced[(a, b)] = "done"
+                continue
+            n = rng.choice(NAMES)
+            src = b if rng.random() < 0.8 else f"{b}.sub"
+            # "through an alias": the wildcard names a module of the *own* package that is an alias of the other package, so
+            # it cannot be expanded before that package is there - and then it is expanded by whoever walks this module next
+            # (the other package's own wildcard back, in the middle of the resolution loop that pulled it in)
+            through = [f"from {holder}.{n} import *", f"import {src} as {n}"]
+            rng.shuffle(through)
+            hop.append(rng.choice([f"from {src} import *", f"from {src} import *", f"from {src} import {n}",
+                                   f"from {src} import {n} as {rng.choice(NAMES)}", f"import {src}",
+                                   f"from {src} import *\nfrom {src} import {n}",
+                                   f"class K:\n    from {src} import *", "\n".join(through), "\n".join(through)]))
+        rng.shuffle(hop)
+        in_sub = in_sub and bool(hop)
+        sub = []
+        if in_sub:
+            sub = hop
+            lines.append(rng.choice([f"from {pk}.sub import *", f"from .sub import *", f"from {pk}.sub import {rng.choice(NAMES)}"]))
+        else:
+            cut = rng.randint(0, len(lines))
+            lines[cut:cut] = hop
+        if rng.random() < 0.4:
+            sub = [*sub, rng.choice([f"from {pk} import *", f"from .. import *", f"{rng.choice(NAMES)} = 2", f"from {pk} import {rng.choice(NAMES)}"])]
+        if rng.random() < 0.2:
+            lines.append(f"__all__ = {rng.sample(NAMES, 2)!r}")
+        files[f"{pk}/__init__.py"] = "\n".join(lines) + "\n"
+        if sub or rng.random() < 0.3:
+            files[f"{pk}/sub.py"] = "\n".join(sub) + "\n"
+    return files, pool, explicit
